@@ -4,36 +4,46 @@ import itertools
 from driver.common import Case
 
 ID = "C09"
-LEVEL_TEXT = ('Lean theorems, for all inputs (induction, no bound on lengths or scores): sw_valid — for ANY score matrix, ANY '
-              'trace matrix, any end cell and both stop rules, what the model of backTrack_SW returns has rows of equal length '
-              '(= the reported length), no all-gap column, ungapped rows exactly seq1[start1..end1] and seq2[start2..end2], and '
-              'matches+mismatches+gaps = length; sw_align_valid — the same for the whole call NewPwAligner+setters+Alignment() '
-              '(shipped and repaired code, any scores), using fill_best_in_range, gapLen_bounds and the regenerated-table facts '
-              'gap_not_in_index_maps / index_maps_in_range; sw_rows_denote_local_alignment — a valid result read column by '
-              'column is a local alignment of the specification; gotoh_upper_bound / gotoh_attained / enum_complete / '
-              'enum_optimal / gotoh_eq_enum — the two reference optima of the oracle (suffix Gotoh DP, brute-force enumeration) '
-              'bound the affine-gap score of every local alignment and are attained. PARTIAL: sw_optimal (reported score = '
-              'score of the returned rows = optimum, repaired code) is stated in Props/C09.lean but open; proved is '
-              'sw_optimal_partial (optimality under the hypothesis that the reported score equals the Gotoh optimum). The two '
-              'missing links are evaluated on the real code for every generated case: exhaustively for all pairs up to length 5 '
-              'over {A,C,G} x 3..6 match/mismatch schemes (incl. match > |gapopen|), small DNAfull/BLOSUM62 pairs, random longer pairs; Lean counter-examples show sw_optimal is false for '
-              'the shipped code.')
+LEVEL_TEXT = ('Lean theorems, for all inputs (induction, no bound on lengths or scores). VALIDITY: sw_valid — for ANY score matrix, '
+              'ANY trace matrix, any end cell and both stop rules, what the model of backTrack_SW returns has rows of equal '
+              'length (= the reported length), no all-gap column, ungapped rows exactly seq1[start1..end1] and '
+              'seq2[start2..end2], and matches+mismatches+gaps = length; sw_align_valid — the same for the whole call '
+              'NewPwAligner+setters+Alignment(), shipped and repaired code, any scores (with fill_best_in_range, gapLen_bounds and '
+              'the regenerated-table facts gap_not_in_index_maps / index_maps_in_range); sw_rows_denote_local_alignment. '
+              'REFERENCE OPTIMUM: gotoh_upper_bound / gotoh_attained / enum_complete / enum_optimal / gotoh_eq_enum — the suffix '
+              'Gotoh program and the brute-force enumeration used by the oracle bound the affine-gap score of every local '
+              'alignment and are attained. SCORE CLAUSES, for the aligner with proposed_fixes/c09-aligner.diff applied: '
+              'sw_score_is_optimum (reported score = optimum over all local alignments), sw_score_of_returned_rows (the returned '
+              'rows score exactly the reported score when it is positive), sw_optimal (C09\'s two score clauses at full '
+              'strength, built-in matrices or any match/mismatch, any gapopen <= gapextend < 0), sw_score_attained. For the '
+              'aligner AS SHIPPED these clauses are false: kernel-checked counter-examples in Props/C09.lean, reproduced on the '
+              'real code by this check (known findings sw-border-max, sw-border-trace, sw-maxa-init, sw-empty-panic). Tie to /repo: '
+              'T1 regenerated DNAfull/BLOSUM62 tables and index maps; T4 correspondence of the Int model (variant selected by '
+              'probing the linked library) with the implementation on every generated case, on which the oracle also evaluates '
+              'the whole C09 predicate with the independent Gotoh program (and enumeration for tiny inputs): all pairs up to '
+              'length 5 over {A,C,G} x 3..6 match/mismatch schemes (incl. match > |gapopen|), small DNAfull/BLOSUM62 pairs, '
+              'random longer pairs.')
 LEVEL_NOTE = ('Trusted: Lean kernel; tools/extract for the DNAfull/BLOSUM62 tables and index maps; harness and driver; the Int '
               '(x den) reading of the float64 code, exact for dyadic scores below 2^52 (Model.SW.DyadicScheme, outside which the '
-              'verdict is n/a); the model of fillMatrix_SW is tied to the code by correspondence only (no theorem about the '
-              'fill beyond the range of the end cell); the variant of the model (shipped / repaired) is selected by probing '
-              'the linked library with "A" vs "A".')
-TECHNIQUE = ('Lean 4 proof (induction over trace-back steps, over column lists and over suffix tables) + differential '
-             'correspondence with an integer model of the float code + independent Gotoh / enumeration oracle on the real output')
+              'verdict is n/a); the hand-written model of fillMatrix_SW/backTrack_SW is tied to the Go code by correspondence '
+              'only; the variant of the model (shipped / repaired) is selected by probing the linked library with "A" vs "A".')
+TECHNIQUE = ('Lean 4 proof (induction over trace-back steps, column lists, suffix tables and reversed-prefix tables; Gotoh '
+             'optimality via an exhaustive-search recursion and reversal symmetry) + differential correspondence with an '
+             'integer model of the float code + independent Gotoh / enumeration oracle evaluated on the real output')
 LEAN_MODULES = ["Gv.Props.C09"]
 REQUIRED_THEOREMS = ["Gv.Props.C09." + n for n in [
     "sw_valid", "sw_align_valid", "gapLen_bounds", "fill_best_in_range", "gap_not_in_index_maps",
     "index_maps_in_range", "sw_rows_denote_local_alignment", "enum_complete", "enum_optimal",
-    "gotoh_upper_bound", "gotoh_attained", "gotoh_eq_enum", "sw_score_is_optimum", "sw_optimal_partial"]]
-PARTIAL = ["sw_optimal is open: sw_optimal_partial assumes `reported score = Gotoh optimum of the specification` "
-           "(missing: invariant that fillMatrix_SW's running maxima compute the Gotoh recurrences) and does not show that the "
-           "RETURNED rows attain the reported score (missing: trace/matrix consistency of the fill); both are checked by the "
-           "oracle on every generated case (verdict clauses score-self, not-optimal)"]
+    "gotoh_upper_bound", "gotoh_attained", "gotoh_eq_enum", "sw_score_is_optimum",
+    "sw_score_of_returned_rows", "sw_optimal", "sw_score_attained"]]
+PARTIAL = ["sw_optimal, sw_score_is_optimum, sw_score_of_returned_rows are theorems about the REPAIRED aligner (model variant "
+           "fixed=true, proposed_fixes/c09-aligner.diff); for the aligner as shipped they are false (counter-examples in "
+           "Props/C09.lean; known findings) and only the validity theorems apply",
+           "`the input sequences are left unmodified` is established by observation on every generated case (the harness "
+           "compares the caller's Sequence objects before and after), not by a theorem: the T3 mutation-facts extractor "
+           "planned in DESIGN.md does not exist",
+           "that Alignment() neither panics nor errors on non-empty sequences over the matrix alphabet is established by "
+           "correspondence only (the model returns `panic` exactly where the Go code indexes out of range)"]
 TRUSTED = ["float64 arithmetic of aligner.go is exact on dyadic scores (DyadicScheme); generators only produce such scores"]
 ASSUMPTIONS = ["scores are integer multiples of 1/den, den a power of two, (|s1|+|s2|+2)*max|score| < 2^52",
                "residues are printable ASCII; a returned error (foreign residue, incompatible alphabets, empty sequence in the "
